@@ -17,24 +17,64 @@ PHYSICAL = ["scene_generation", "photon_collection", "phasing", "charge_generati
 
 TRUSTED = [
     "translator/c01.py (MODEL_GROUPS tuple, constructor keyword -> attribute -> property wiring, what run_pipeline / "
-    "model_group_names / __iter__ iterate, ModelGroup.__iter__ guard, ModelFunction.__call__ argument passing; "
-    "AST literal cross-checked against the imported class; fails closed on any other shape)",
-    "correspondence harness: harness/props/c01.py generators, harness/drivers/c01.py, probes/verif_probes.record "
-    "(name = detector.current_running_model_name, step = detector.pipeline_count, kwargs deep-copied), "
-    "dicts compared as key-sorted association lists, JSON transport of ints/strings/bools/None/nested lists",
+    "model_group_names / __iter__ iterate, the conditions under which run_pipeline skips a group, ModelGroup.__iter__ "
+    "guard, what ModelGroup.run loops over, ModelFunction.__call__ argument passing, attributes set by "
+    "ModelGroup.__init__ vs restored by __setstate__, how exposure.run_pipeline reads detector.intermediate; AST "
+    "literal cross-checked against the imported class; fails closed on any other shape)",
+    "correspondence harness: harness/props/c01.py generators and the Python mirror used to generate valid histories, "
+    "harness/drivers/c01.py (which public calls realise each operation of a history), probes/verif_probes.record "
+    "(name = detector.current_running_model_name, step = detector.pipeline_count, kwargs deep-copied) and "
+    "verif_probes_c01.grow, dicts compared as key-sorted association lists, JSON transport of "
+    "ints/strings/bools/None/nested lists/dicts",
     "modelled, not verified: PyYAML SafeLoader (mapping -> dict with unique keys), Python keyword binding of "
-    "DetectionPipeline(**dct), xarray DataTree child order = insertion order (debug nodes), copy.deepcopy of the "
-    "processor in observation mode, pygmo's choice of fitness evaluations in calibration",
+    "DetectionPipeline(**dct), xarray DataTree child order = insertion order (debug nodes), that copy.deepcopy / "
+    "pickle of a processor or pipeline yields an independent equal value (the specification of copying: "
+    "Model/PipelineHist.v treats every pipeline object as a value; sharing would show as a correspondence break), "
+    "which run lists ProductMode / SequentialMode produce from the parameters (C05), dask's choice of task order and "
+    "repetition under the synchronous scheduler, pygmo's choice of fitness evaluations in calibration",
 ]
 
 # ------------------------------------------------------------------------------------------ generation
 
+RECORD = "verif_probes.record"
+GROW = "verif_probes_c01.grow"         # records, then changes its container arguments in place
+PROBES = (RECORD, GROW)
+DETS = ["ccd", "cmos", "mkid", "apd"]
+
 ARG_KEYS = ["a", "b", "level", "x_0", "opt", "Key", "z9"]
+DICT_KEYS = ["level", "kind", "n", "sub", "q1", "lst"]
 STRINGS = ["", "x", "hello world", "yes", "null", "1", "a:b", "- q", "#c", "it's", 'say "hi"', "~", "True", "0x10",
            "[1, 2]", "{k: v}", " lead", "trail ", "%d", "\\n", "_"]
 
 
-def gen_value(r, depth=0):
+def gen_scalar(r):
+    k = r.random()
+    if k < 0.55:
+        return r.choice([0, 1, -1, 2, 7, 42, -13, 255, 65536, 10 ** 12, -(10 ** 15), r.randrange(-1000, 1000)])
+    if k < 0.80:
+        return r.choice(STRINGS)
+    if k < 0.92:
+        return r.choice([True, False])
+    return None
+
+
+def gen_dict(r, depth=0):
+    d = {}
+    for key in r.sample(DICT_KEYS, r.randrange(1, 4)):
+        k = r.random()
+        if k < 0.5 or depth >= 2:
+            d[key] = r.choice([0, 1, 5, 10, -3, r.randrange(100)]) if r.random() < 0.7 else gen_scalar(r)
+        elif k < 0.75:
+            d[key] = [(gen_dict(r, depth + 1) if r.random() < 0.3 and depth < 1 else r.randrange(10))
+                      for _ in range(r.randrange(0, 3))]
+        else:
+            d[key] = gen_dict(r, depth + 1)
+    return d
+
+
+def gen_value(r, depth=0, containers=0.0):
+    if depth == 0 and r.random() < containers:
+        return gen_dict(r) if r.random() < 0.6 else [r.randrange(10) for _ in range(r.randrange(0, 3))]
     k = r.random()
     if k < 0.40:
         return r.choice([0, 1, -1, 2, 7, 42, -13, 255, 65536, 10 ** 12, -(10 ** 15), r.randrange(-1000, 1000)])
@@ -49,17 +89,17 @@ def gen_value(r, depth=0):
     return [gen_value(r, depth + 1) for _ in range(r.randrange(0, 4))]
 
 
-def gen_args(r):
+def gen_args(r, containers=0.0):
     k = r.random()
-    if k < 0.25:
+    if k < 0.25 and not containers:
         return None
-    if k < 0.32:
+    if k < 0.32 and not containers:
         return {}
     keys = r.sample(ARG_KEYS, r.randrange(1, 4))
-    return {key: gen_value(r) for key in keys}
+    return {key: gen_value(r, containers=containers) for key in keys}
 
 
-def gen_spec(r, dense=False):
+def gen_spec(r, dense=False, containers=0.0, grow=0.0):
     """[[key, models|None], ...] with shuffled keys."""
     pinc = r.choice([0.25, 0.5, 0.5, 0.8, 1.0]) if not dense else 1.0
     spec = []
@@ -79,23 +119,45 @@ def gen_spec(r, dense=False):
             if names and r.random() < 0.06:
                 nm = r.choice(names)          # duplicate name (same or other group): positions matter
             names.append(nm)
-            ms.append(dict(name=nm, enabled=r.random() < pen, explicit_enabled=r.random() < 0.6,
-                           arguments=gen_args(r)))
+            m = dict(name=nm, enabled=r.random() < pen, explicit_enabled=r.random() < 0.6,
+                     arguments=gen_args(r, containers=containers))
+            if r.random() < grow:
+                m["func"] = GROW
+            ms.append(m)
         spec.append([g, ms])
     r.shuffle(spec)
     return spec
 
 
-def int_targets(spec):
-    """(group, model, key) of integer-valued arguments of uniquely named, enabled models (observation targets)."""
+def paths_of(value, prefix):
+    """Paths (lists of dict keys / list indices) inside `value` that Processor.set can address: every element
+    walks a dict by key or a list by index and the LAST element is a dict key."""
+    out = []
+    if isinstance(value, dict):
+        for k, v in value.items():
+            out.append(prefix + [k])
+            out += paths_of(v, prefix + [k])
+    elif isinstance(value, list):
+        for i, v in enumerate(value):
+            out += paths_of(v, prefix + [i])
+    return out
+
+
+def name_count(spec):
     count = {}
     for g, ms in spec:
         for m in ms or []:
             count[m["name"]] = count.get(m["name"], 0) + 1
+    return count
+
+
+def int_targets(spec):
+    """(group, model, key) of integer-valued arguments of uniquely named, enabled models (observation targets)."""
+    count = name_count(spec)
     out = []
     for g, ms in spec:
         for m in ms or []:
-            if count[m["name"]] != 1 or not m["enabled"]:
+            if count[m["name"]] != 1 or not m["enabled"] or m.get("func", RECORD) not in PROBES:
                 continue   # Observation.validate_steps refuses a parameter of a disabled model
             for k, v in (m.get("arguments") or {}).items():
                 if isinstance(v, int) and not isinstance(v, bool) and abs(v) < 10 ** 9:
@@ -103,30 +165,79 @@ def int_targets(spec):
     return out
 
 
+def path_targets(spec):
+    """(group, model, path) of every addressable setting of uniquely named, enabled probe models: top-level
+    argument keys and paths into dict / list valued arguments (product-mode observation, Processor.set)."""
+    count = name_count(spec)
+    out = []
+    for g, ms in spec:
+        for m in ms or []:
+            if count[m["name"]] != 1 or not m["enabled"] or m.get("func", RECORD) not in PROBES:
+                continue
+            for k, v in (m.get("arguments") or {}).items():
+                out.append((g, m["name"], [k]))
+                for pth in paths_of(v, [k]):
+                    out.append((g, m["name"], pth))
+    return out
+
+
+def path_of(q):
+    return list(q["path"]) if "path" in q else [q["key"]]
+
+
+def gen_params(r, spec, nested_ok=True):
+    """Observation parameters for the configuration `spec`: (params, omode) or None."""
+    it = int_targets(spec)
+    pt = path_targets(spec) if nested_ok else []
+    nested = [t for t in pt if len(t[2]) > 1]
+    if nested and r.random() < 0.6:
+        # product mode: SequentialMode reads the current value with attrgetter, which cannot see inside a dict
+        first = r.choice(nested)
+        chosen = [first]
+        if r.random() < 0.5:
+            others = [t for t in pt if t != first and t[2][-1] != first[2][-1]
+                      and not (t[1] == first[1] and (t[2][:len(first[2])] == first[2] or first[2][:len(t[2])] == t[2]))]
+            if others:
+                chosen.append(r.choice(others))
+        r.shuffle(chosen)
+        params = [dict(group=g, model=mn, path=pth, values=r.sample(range(100, 200), r.choice([1, 2])))
+                  for (g, mn, pth) in chosen]
+        return params, "product"
+    if not it:
+        return None
+    params = [dict(group=g, model=mn, path=[k], values=r.sample(range(100, 200), r.choice([1, 2])))
+              for (g, mn, k) in r.sample(it, min(len(it), r.choice([1, 2])))]
+    return params, r.choice(["sequential", "sequential", "product"])
+
+
 def gen_cases(ctx: Ctx, n_specs: int, salt="cases"):
     r = ctx.rng(salt)
     cases = []
     for i in range(n_specs):
-        spec = gen_spec(r, dense=(i % 11 == 0))
+        rich = i % 3 == 1
+        spec = gen_spec(r, dense=(i % 11 == 0), containers=0.35 if rich else 0.0, grow=0.3 if rich else 0.0)
         steps = r.choice([1, 2, 2, 3, 3, 4])
+        det = r.choice(DETS) if i % 2 else "ccd"
         combos = [("yaml", False), ("yaml", True), ("python", False), ("python", True)]
         if ctx.quick and i % 3:
             combos = r.sample(combos, 2)
+        nd = r.random() < 0.3
         for variant, debug in combos:
-            cases.append(dict(spec=spec, steps=steps, variant=variant, mode="exposure", debug=debug))
-        tg = int_targets(spec)
-        if tg and r.random() < 0.5:
-            params = []
-            for (g, mn, k) in r.sample(tg, min(len(tg), r.choice([1, 2]))):
-                params.append(dict(group=g, model=mn, key=k,
-                                   values=r.sample(range(100, 200), r.choice([1, 2]))))
-            cases.append(dict(spec=spec, steps=r.choice([1, 2, 3]), variant=r.choice(["yaml", "python"]),
-                              mode="observation", debug=False, params=params))
+            cases.append(dict(spec=spec, steps=steps, variant=variant, det=det, mode="exposure", debug=debug, nd=nd))
+        if r.random() < 0.75:
+            got = gen_params(r, spec)
+            if got:
+                params, omode = got
+                # SequentialMode under dask is a known defect of C05 (parameters zipped): product mode only
+                cases.append(dict(spec=spec, steps=r.choice([1, 2, 3]), variant=r.choice(["yaml", "python"]), det=det,
+                                  mode="observation", debug=False, params=params, omode=omode, nd=nd,
+                                  dask=(omode == "product" and r.random() < 0.5)))
     return cases
 
 
 def pair_cases(full: bool):
-    """All 45 pairs of groups x 4 enabled patterns; keys listed in reverse physical order."""
+    """All 45 pairs of groups x 4 enabled patterns; keys listed in reverse physical order; the detector type
+    rotates over the four kinds."""
     cases = []
     n = 0
     for (i, a), (j, b) in itertools.combinations(enumerate(PHYSICAL), 2):
@@ -139,19 +250,24 @@ def pair_cases(full: bool):
                 combos = [("yaml", False), ("yaml", True), ("python", False), ("python", True)]
                 if not full:
                     combos = [combos[n % 4], combos[(n + 3) % 4]] if n % 2 else [combos[n % 4]]
-                n += 1
                 for variant, debug in combos:
-                    cases.append(dict(spec=spec, steps=2, variant=variant, mode="exposure", debug=debug, sweep="pairs"))
+                    cases.append(dict(spec=spec, steps=2, variant=variant, det=DETS[(n // 4 + n) % 4], mode="exposure",
+                                      debug=debug, sweep="pairs"))
+                n += 1
     return cases
+
+
+def all_groups_spec():
+    return [[g, [dict(name=f"g{i}_m0", enabled=True, explicit_enabled=True, arguments={"a": i}),
+                 dict(name=f"g{i}_m1", enabled=False, explicit_enabled=True, arguments={"a": -i}),
+                 dict(name=f"g{i}_m2", enabled=True, explicit_enabled=False, arguments={"b": [i, "s"]})]]
+            for i, g in reversed(list(enumerate(PHYSICAL)))]
 
 
 def fixed_cases():
     """Adversarial list aimed at the mutations the property text names."""
     cases = []
-    allg = [[g, [dict(name=f"g{i}_m0", enabled=True, explicit_enabled=True, arguments={"a": i}),
-                 dict(name=f"g{i}_m1", enabled=False, explicit_enabled=True, arguments={"a": -i}),
-                 dict(name=f"g{i}_m2", enabled=True, explicit_enabled=False, arguments={"b": [i, "s"]})]]
-            for i, g in reversed(list(enumerate(PHYSICAL)))]
+    allg = all_groups_spec()
     alldis = [[g, [dict(name=f"g{i}_m0", enabled=False, explicit_enabled=True, arguments=None)]]
               for i, g in enumerate(PHYSICAL)]
     dup = [["charge_generation", [dict(name="same", enabled=True, explicit_enabled=True, arguments={"a": 1}),
@@ -164,12 +280,37 @@ def fixed_cases():
         for variant in ("yaml", "python"):
             for debug in (False, True):
                 for steps in (1, 3):
-                    cases.append(dict(spec=spec, steps=steps, variant=variant, mode="exposure", debug=debug))
-    cases.append(dict(spec=allg, steps=2, variant="yaml", mode="observation", debug=False,
-                      params=[dict(group="phasing", model="g2_m0", key="a", values=[100, 101]),
-                              dict(group="data_processing", model="g9_m0", key="a", values=[102])]))
-    cases.append(dict(spec=allg, steps=2, variant="python", mode="observation", debug=False,
-                      params=[dict(group="scene_generation", model="g0_m0", key="a", values=[100])]))
+                    cases.append(dict(spec=spec, steps=steps, variant=variant, det="ccd", mode="exposure", debug=debug))
+    # every group populated on every detector type (CCD-only / CMOS-only / MKID-only groups included): the code
+    # has no detector-dependent branch, every populated group runs on every detector
+    for det in DETS:
+        for variant in ("yaml", "python"):
+            for debug in (False, True):
+                cases.append(dict(spec=allg, steps=2, variant=variant, det=det, mode="exposure", debug=debug))
+        cases.append(dict(spec=allg, steps=1, variant="yaml", det=det, mode="observation", debug=False, omode="sequential",
+                          params=[dict(group="charge_transfer", model="g5_m0", path=["a"], values=[100, 101])]))
+    cases.append(dict(spec=allg, steps=2, variant="yaml", det="ccd", mode="observation", debug=False, omode="sequential",
+                      params=[dict(group="phasing", model="g2_m0", path=["a"], values=[100, 101]),
+                              dict(group="data_processing", model="g9_m0", path=["a"], values=[102])]))
+    cases.append(dict(spec=allg, steps=2, variant="python", det="cmos", mode="observation", debug=False, omode="product",
+                      params=[dict(group="scene_generation", model="g0_m0", path=["a"], values=[100]),
+                              dict(group="signal_transfer", model="g7_m0", path=["a"], values=[7, 8])]))
+    # container-valued arguments, a growing model over several steps, keys addressing inside a dict / a list
+    rich = [["photon_collection", [dict(name="light", enabled=True, explicit_enabled=True,
+                                        arguments={"opt": {"level": 10, "kind": "flat", "lst": [1, {"n": 2}]}, "a": 3})]],
+            ["charge_generation", [dict(name="frames", enabled=True, explicit_enabled=True, func=GROW,
+                                        arguments={"b": ["a", "b"], "opt": {"lst": [], "n": 0}, "x_0": 5})]]]
+    for variant in ("yaml", "python"):
+        cases.append(dict(spec=rich, steps=3, variant=variant, det="ccd", mode="exposure", debug=variant == "yaml"))
+        cases.append(dict(spec=rich, steps=2, variant=variant, det="apd", mode="observation", debug=False, omode="product",
+                          params=[dict(group="photon_collection", model="light", path=["opt", "level"], values=[1, 2, 3])]))
+        cases.append(dict(spec=rich, steps=2, variant=variant, det="mkid", mode="observation", debug=False, omode="product",
+                          params=[dict(group="photon_collection", model="light", path=["opt", "lst", 1, "n"], values=[7]),
+                                  dict(group="charge_generation", model="frames", path=["x_0"], values=[8, 9])]))
+        cases.append(dict(spec=rich, steps=2, variant=variant, det="cmos", mode="observation", debug=False, omode="product",
+                          dask=True,
+                          params=[dict(group="photon_collection", model="light", path=["opt", "level"], values=[1, 2]),
+                                  dict(group="charge_generation", model="frames", path=["x_0"], values=[8, 9])]))
     return cases
 
 
@@ -179,22 +320,396 @@ def malformed_cases(ctx: Ctx):
     for bad in ["photon_generation", "Phasing", "charge_transfer_", "optics", "readout", "models"]:
         spec = gen_spec(r)
         spec.insert(r.randrange(len(spec) + 1), [bad, r.choice([None, []])])
-        out.append(dict(spec=spec, steps=1, variant=r.choice(["yaml", "python"]), mode="exposure", debug=False,
+        out.append(dict(spec=spec, steps=1, variant=r.choice(["yaml", "python"]), det="ccd", mode="exposure", debug=False,
                         malformed=True))
     return out
+
+
+WRITER = dict(name="writer", enabled=True, explicit_enabled=True, func="verif_probes.write",
+              arguments={"bucket": "pixel", "value": 1.0})
 
 
 def calibration_cases(ctx: Ctx, n: int):
     r = ctx.rng("calibration")
     out = []
-    for _ in range(n):
-        spec = [s for s in gen_spec(r) if s[0] != "charge_collection"]
+    for k in range(n):
+        spec = [s for s in gen_spec(r, grow=0.2 if k % 2 else 0.0, containers=0.3 if k % 2 else 0.0)
+                if s[0] != "charge_collection"]
         # the fitted output must exist: one writer model fills `pixel` (it is not part of the compared trace)
-        spec.append(["charge_collection", [dict(name="writer", enabled=True, explicit_enabled=True,
-                                                func="verif_probes.write",
-                                                arguments={"bucket": "pixel", "value": 1.0})]])
+        spec.append(["charge_collection", [dict(WRITER)]])
         r.shuffle(spec)
-        out.append(dict(spec=spec, steps=1, variant="yaml", mode="calibration", debug=False))
+        # odd cases: a time-domain target (several readout steps per evaluation)
+        out.append(dict(spec=spec, steps=(1 if k % 2 == 0 else r.choice([2, 3])), variant="yaml", det=DETS[k % 4],
+                        mode="calibration", debug=False))
+    return out
+
+
+# ------------------------------------------------------------------------------------------ histories
+# A history = object 0 (spec) + operations on pipeline objects (Model/PipelineHist.v).  The Python mirror below
+# keeps the configurations as values; it is used to GENERATE valid operations and to shrink / classify a
+# history that Coq has already judged.
+
+
+def grow_args(a):
+    for v in a.values():
+        if isinstance(v, list):
+            v.append(len(v))
+        elif isinstance(v, dict):
+            for x in v.values():
+                if isinstance(x, list):
+                    x.append(len(x))
+
+
+def set_path(args, path, value):
+    """Python mirror of upd_kw / set_in; returns False when the path does not exist."""
+    obj = args
+    for el in path[:-1]:
+        if isinstance(obj, dict) and el in obj:
+            obj = obj[el]
+        elif isinstance(obj, list) and isinstance(el, int) and 0 <= el < len(obj):
+            obj = obj[el]
+        else:
+            return False
+    if isinstance(obj, dict) and path[-1] in obj:
+        obj[path[-1]] = value
+        return True
+    return False
+
+
+class Mirror:
+    """store of configurations: each object = {group: [model dicts] | None} (absent groups missing or None)."""
+
+    def __init__(self, spec, inplace=True):
+        cfg = {}
+        for k, ms in spec:
+            cfg[k] = copy.deepcopy(ms) if ms else None       # an empty list is an absent group
+        self.store = [cfg]
+        self.inplace = inplace
+
+    @staticmethod
+    def spec_of(cfg):
+        return [[g, copy.deepcopy(cfg[g])] for g in PHYSICAL if cfg.get(g) is not None]
+
+    def valid(self, op) -> bool:
+        if not (0 <= op["obj"] < len(self.store)):
+            return False
+        cfg = self.store[op["obj"]]
+        kind = op["op"]
+        if kind == "copy":
+            return True
+        if kind == "run":
+            if op["mode"] != "observation":
+                return True
+            spec = self.spec_of(cfg)
+            tg = [(g, m, list(p)) for g, m, p in path_targets(spec)]
+            it = {(g, m, k) for g, m, k in int_targets(spec)}
+            lasts = [path_of(q)[-1] for q in op["params"]]
+            nested = any(len(path_of(q)) > 1 for q in op["params"])
+            if nested and (len(set(map(str, lasts))) != len(lasts) or op.get("omode") != "product"):
+                return False
+            if op.get("dask") and op.get("omode") != "product":
+                return False
+            for q in op["params"]:
+                pth = path_of(q)
+                if (q["group"], q["model"], pth) not in tg:
+                    return False
+                if op.get("omode") != "product" and (q["group"], q["model"], pth[0]) not in it:
+                    return False
+            keys = [(q["group"], q["model"], tuple(map(str, path_of(q)))) for q in op["params"]]
+            for a in keys:                                    # no parameter may address inside another one
+                for b in keys:
+                    if a is not b and a[:2] == b[:2] and a[2][:len(b[2])] == b[2]:
+                        return False
+            return True
+        ms = cfg.get(op["group"])
+        if ms is None:
+            return False
+        if kind == "enable":
+            if not (0 <= op["index"] < len(ms)):
+                return False
+            if op.get("via") == "set":                        # addressed by name: must be the first of that name
+                nm = ms[op["index"]]["name"]
+                return [m["name"] for m in ms].index(nm) == op["index"]
+            return True
+        if kind == "setarg":
+            for m in ms:
+                if m["name"] == op["model"]:
+                    a = copy.deepcopy(m.get("arguments") or {})
+                    pth = path_of(op)
+                    return (pth[0] in a) if len(pth) == 1 else set_path(a, pth, 0)
+            return False
+        if kind == "models":
+            return len(set(op["sel"])) == len(op["sel"]) and all(0 <= j < len(ms) for j in op["sel"])
+        if kind == "insert":
+            return 0 <= op["index"] <= len(ms)
+        return False
+
+    def apply(self, op):
+        cfg = self.store[op["obj"]]
+        kind = op["op"]
+        if kind == "run":
+            if op["mode"] == "exposure" and self.inplace:
+                for g in PHYSICAL:
+                    for m in cfg.get(g) or []:
+                        if m["enabled"] and m.get("func", RECORD) == GROW and m.get("arguments"):
+                            for _ in range(op["steps"]):
+                                grow_args(m["arguments"])
+        elif kind == "enable":
+            cfg[op["group"]][op["index"]]["enabled"] = bool(op["value"])
+        elif kind == "setarg":
+            for m in cfg[op["group"]]:
+                if m["name"] == op["model"]:
+                    pth = path_of(op)
+                    if len(pth) == 1:
+                        m["arguments"][pth[0]] = op["value"]
+                    else:
+                        set_path(m["arguments"], pth, op["value"])
+                    break
+        elif kind == "models":
+            old = cfg[op["group"]]
+            cfg[op["group"]] = [old[j] for j in op["sel"]]
+        elif kind == "insert":
+            old = cfg[op["group"]]
+            cfg[op["group"]] = old[:op["index"]] + [copy.deepcopy(op["model"])] + old[op["index"]:]
+        elif kind == "copy":
+            self.store.append(copy.deepcopy(cfg))
+
+
+def hist_valid(case) -> bool:
+    if any(k not in PHYSICAL for k, _ in case["spec"]):
+        return False
+    mir = Mirror(case["spec"])
+    nruns = 0
+    for op in case["ops"]:
+        if not mir.valid(op):
+            return False
+        nruns += op["op"] == "run"
+        mir.apply(op)
+    return nruns >= 1
+
+
+def hist_run_cases(case, inplace=True):
+    """One pseudo single-run case per run op: the configuration of the object AT THAT TIME."""
+    mir = Mirror(case["spec"], inplace=inplace)
+    out = []
+    for op in case["ops"]:
+        if op["op"] == "run":
+            spec = Mirror.spec_of(mir.store[op["obj"]])
+            if not inplace:
+                for _, ms in spec:
+                    for m in ms:
+                        if m.get("func", RECORD) == GROW:
+                            m["func"] = RECORD
+            out.append(dict(spec=spec, steps=op["steps"], variant=case["variant"], det=case.get("det", "ccd"),
+                            mode=op["mode"], debug=bool(op.get("debug")), params=op.get("params"),
+                            omode=op.get("omode"), dask=bool(op.get("dask")), nd=bool(op.get("nd"))))
+        mir.apply(op)
+    return out
+
+
+def gen_hist(r, quick=True, pickle_ok=False):
+    containers = r.choice([0.0, 0.3, 0.5])
+    spec = []
+    while sum(1 for _, ms in spec if ms) < 1:
+        spec = gen_spec(r, dense=r.random() < 0.15, containers=containers, grow=r.choice([0.0, 0.0, 0.3, 0.5]))
+    case = dict(kind="hist", spec=spec, variant=r.choice(["yaml", "python"]), det=r.choice(DETS), ops=[])
+    mir = Mirror(spec)
+    fresh = itertools.count()
+
+    def push(op):
+        if mir.valid(op):
+            case["ops"].append(op)
+            mir.apply(op)
+            return True
+        return False
+
+    def gen_run(obj):
+        cfg_spec = Mirror.spec_of(mir.store[obj])
+        k = r.random()
+        if k < 0.35:
+            got = gen_params(r, cfg_spec)
+            if got:
+                params, omode = got
+                return dict(op="run", obj=obj, mode="observation", steps=r.choice([1, 1, 2]), debug=False,
+                            params=params, omode=omode, dask=(omode == "product" and r.random() < 0.3))
+        return dict(op="run", obj=obj, mode="exposure", steps=r.choice([1, 2, 2, 3]), debug=r.random() < 0.4,
+                    nd=r.random() < 0.25)
+
+    def gen_config_op(obj):
+        cfg = mir.store[obj]
+        groups = [g for g in PHYSICAL if cfg.get(g) is not None]
+        k = r.random()
+        if k < 0.12:
+            hows = ["deep", "processor"] + (["pickle"] if pickle_ok else [])
+            return dict(op="copy", obj=obj, how=r.choice(hows))
+        if not groups:
+            return None
+        g = r.choice(groups)
+        ms = cfg[g]
+        if k < 0.50 and ms:
+            i = r.randrange(len(ms))
+            val = (not ms[i]["enabled"]) if r.random() < 0.85 else ms[i]["enabled"]
+            return dict(op="enable", obj=obj, group=g, index=i, value=val, via=r.choice(["attr", "attr", "set"]))
+        if k < 0.72:
+            cands = []
+            for m in ms:
+                a = m.get("arguments") or {}
+                for key, v in a.items():
+                    cands.append((m["name"], [key]))
+                    for pth in paths_of(v, [key]):
+                        cands.append((m["name"], pth))
+            if cands:
+                nested = [c for c in cands if len(c[1]) > 1]
+                mn, pth = r.choice(nested) if nested and r.random() < 0.6 else r.choice(cands)
+                return dict(op="setarg", obj=obj, group=g, model=mn, path=pth, value=r.randrange(300, 400))
+        if k < 0.87 and ms:
+            sel = list(range(len(ms)))
+            r.shuffle(sel)
+            if len(sel) > 1 and r.random() < 0.4:
+                sel = sel[:r.randrange(1, len(sel))]
+            return dict(op="models", obj=obj, group=g, sel=sel)
+        m = dict(name=f"ins{next(fresh)}", enabled=r.random() < 0.8, explicit_enabled=True,
+                 arguments=gen_args(r, containers=containers))
+        if r.random() < 0.2:
+            m["func"] = GROW
+        return dict(op="insert", obj=obj, group=g, index=r.randrange(len(ms) + 1), model=m)
+
+    n_ops = r.choice([3, 4, 5, 6, 8] if quick else [3, 5, 7, 9, 12])
+    if r.random() < 0.8:
+        push(gen_run(0))
+    tries = 0
+    while len(case["ops"]) < n_ops and tries < 60:
+        tries += 1
+        obj = r.randrange(len(mir.store))
+        if r.random() < 0.45:
+            push(gen_run(obj))
+        else:
+            op = gen_config_op(obj)
+            if op:
+                push(op)
+    # every object that was configured is finally run (the last word of a history is an observation of it)
+    for obj in range(len(mir.store)):
+        if r.random() < 0.8 or obj == 0:
+            push(dict(op="run", obj=obj, mode="exposure", steps=r.choice([1, 2]), debug=r.random() < 0.3))
+    return case
+
+
+def _m(name, enabled=True, args=None, func=None):
+    d = dict(name=name, enabled=enabled, explicit_enabled=True, arguments=args)
+    if func:
+        d["func"] = func
+    return d
+
+
+def _run(obj=0, steps=2, debug=False, mode="exposure", **kw):
+    return dict(op="run", obj=obj, mode=mode, steps=steps, debug=debug, **kw)
+
+
+def fixed_hist_cases(pickle_ok=False, thorough=False):
+    """Histories aimed at: a changed switch / model list / argument must be honoured by the NEXT run of the same
+    object; a run (observation above all) must leave the user's configuration as it was; copies are independent."""
+    out = []
+    base = [["charge_generation", [_m("gen_a", True, {"a": 1}), _m("gen_b", False, {"a": 2}), _m("gen_c", True, {"a": 3})]],
+            ["photon_collection", [_m("phot_a", True, {"level": 4})]],
+            ["readout_electronics", [_m("ro_a", False, {"a": 5}), _m("ro_b", True, None)]]]
+    for variant in ("yaml", "python"):
+        for debug in (False, True):
+            for via in ("attr", "set"):
+                out.append(dict(kind="hist", spec=base, variant=variant, det="ccd", ops=[
+                    _run(steps=3, debug=debug),
+                    dict(op="enable", obj=0, group="charge_generation", index=1, value=True, via=via),
+                    dict(op="enable", obj=0, group="charge_generation", index=2, value=False, via=via),
+                    dict(op="enable", obj=0, group="readout_electronics", index=0, value=True, via=via),
+                    _run(steps=3, debug=debug),
+                    dict(op="enable", obj=0, group="photon_collection", index=0, value=False, via=via),
+                    _run(steps=1, debug=debug)]))
+        out.append(dict(kind="hist", spec=base, variant=variant, det="cmos", ops=[
+            _run(steps=2), dict(op="models", obj=0, group="charge_generation", sel=[2, 1, 0]), _run(steps=2),
+            dict(op="models", obj=0, group="charge_generation", sel=[1]), _run(steps=2, debug=True),
+            dict(op="insert", obj=0, group="charge_generation", index=0, model=_m("ins0", True, {"a": 9})), _run(steps=1),
+            dict(op="setarg", obj=0, group="photon_collection", model="phot_a", path=["level"], value=77), _run(steps=1)]))
+        out.append(dict(kind="hist", spec=base, variant=variant, det="mkid", ops=[
+            _run(mode="observation", steps=2, omode="sequential",
+                 params=[dict(group="photon_collection", model="phot_a", path=["level"], values=[100, 101])]),
+            dict(op="enable", obj=0, group="charge_generation", index=0, value=False, via="attr"),
+            _run(mode="observation", steps=1, omode="product",
+                 params=[dict(group="photon_collection", model="phot_a", path=["level"], values=[102]),
+                         dict(group="charge_generation", model="gen_c", path=["a"], values=[5, 6])]),
+            _run(steps=2)]))
+    rich = [["photon_collection", [_m("light", True, {"opt": {"level": 10, "kind": "flat", "lst": [1, {"n": 2}]}, "a": 3})]],
+            ["charge_generation", [_m("frames", True, {"b": ["a", "b", "c"], "opt": {"lst": [], "n": 0}}, GROW)]],
+            ["charge_transfer", [_m("cti", True, {"a": 0, "b": [1, 2]})]]]
+    for variant in ("yaml", "python"):
+        for det in (("ccd", "apd") if variant == "yaml" else ("cmos",)):
+            # an observation addressing INSIDE a dict-valued argument, then the same pipeline in exposure mode
+            out.append(dict(kind="hist", spec=rich, variant=variant, det=det, ops=[
+                _run(mode="observation", steps=1, omode="product",
+                     params=[dict(group="photon_collection", model="light", path=["opt", "level"], values=[1, 2, 3])]),
+                _run(steps=1),
+                _run(mode="observation", steps=2, omode="product",
+                     params=[dict(group="photon_collection", model="light", path=["opt", "lst", 1, "n"], values=[7, 8])]),
+                _run(steps=2), _run(steps=1)]))
+        out.append(dict(kind="hist", spec=rich, variant=variant, det="ccd", ops=[
+            _run(mode="observation", steps=2, omode="product", dask=True,
+                 params=[dict(group="photon_collection", model="light", path=["opt", "level"], values=[1, 2, 3])]),
+            _run(steps=2)]))
+        # copies: what is done to a copy never shows in the source, and vice versa
+        for how in ["deep", "processor"] + (["pickle"] if pickle_ok else []):
+            out.append(dict(kind="hist", spec=rich, variant=variant, det="ccd", ops=[
+                dict(op="copy", obj=0, how=how),
+                dict(op="setarg", obj=1, group="photon_collection", model="light", path=["opt", "level"], value=55),
+                dict(op="setarg", obj=1, group="charge_transfer", model="cti", path=["a"], value=56),
+                dict(op="enable", obj=1, group="charge_transfer", index=0, value=False, via="attr"),
+                _run(obj=0, steps=2), _run(obj=1, steps=2),
+                dict(op="setarg", obj=0, group="photon_collection", model="light", path=["opt", "lst", 1, "n"], value=57),
+                _run(obj=1, steps=1), _run(obj=0, steps=1)]))
+    if thorough:
+        cal = [s for s in rich if s[0] != "charge_transfer"] + [["charge_collection", [dict(WRITER)]]]
+        for det in ("ccd", "cmos"):
+            out.append(dict(kind="hist", spec=cal, variant="yaml", det=det, ops=[
+                _run(mode="calibration", steps=1), _run(steps=2),
+                dict(op="enable", obj=0, group="photon_collection", index=0, value=False, via="attr"),
+                _run(mode="calibration", steps=2), _run(steps=1)]))
+    return out
+
+
+def enum_hist_cases(depth=3):
+    """Exhaustive small scope (thorough tier): EVERY sequence of at most `depth` operations from a small alphabet
+    over a 2-group / 3-model pipeline (one model grows its list argument), followed by a run of every object."""
+    base = [["charge_generation", [_m("a", True, {"a": 1}), _m("b", False, {"b": [1]}, GROW)]],
+            ["readout_electronics", [_m("c", True, {"opt": {"level": 1}})]]]
+
+    def alphabet(mir):
+        ops = [("R0", lambda: _run(obj=0, steps=2)), ("M0", lambda: dict(op="models", obj=0, group="charge_generation", sel=[1, 0])),
+               ("C", lambda: dict(op="copy", obj=0, how=("deep", "pickle", "processor")[len(mir.store) % 3])),
+               ("S0", lambda: dict(op="setarg", obj=0, group="readout_electronics", model="c", path=["opt", "level"], value=9))]
+        for tag, g, i in (("Ta", "charge_generation", 0), ("Tb", "charge_generation", 1), ("Tc", "readout_electronics", 0)):
+            ops.append((tag, lambda g=g, i=i: dict(op="enable", obj=0, group=g, index=i,
+                                                   value=not mir.store[0][g][i]["enabled"], via="attr")))
+        if len(mir.store) > 1:
+            ops.append(("R1", lambda: _run(obj=1, steps=1)))
+            ops.append(("T1", lambda: dict(op="enable", obj=1, group="charge_generation", index=1,
+                                           value=not mir.store[1]["charge_generation"][1]["enabled"], via="attr")))
+        return ops
+
+    out = []
+
+    def rec(prefix, mir, d):
+        if prefix:
+            ops = list(prefix) + [_run(obj=o, steps=1, debug=(o == 0 and len(prefix) % 2 == 0)) for o in range(len(mir.store))]
+            out.append(dict(kind="hist", spec=base, variant=("yaml", "python")[len(out) % 2], det=DETS[len(out) % 4],
+                            ops=ops, sweep="enum"))
+        if d == 0:
+            return
+        for _, mk in alphabet(mir):
+            op = mk()
+            if not mir.valid(op):
+                continue
+            m2 = copy.deepcopy(mir)
+            m2.apply(op)
+            rec(prefix + [op], m2, d - 1)
+
+    rec([], Mirror(base), depth)
     return out
 
 
@@ -209,26 +724,41 @@ def mirror_trace(spec, steps, overrides=()):
     for ov in overrides:
         for m in d.get(ov["group"]) or []:
             if m["name"] == ov["model"]:
-                if m.get("arguments") and ov["key"] in m["arguments"]:
-                    m["arguments"][ov["key"]] = ov["value"]
+                pth = path_of(ov)
+                a = m.get("arguments")
+                if a and pth[0] in a:
+                    if len(pth) == 1:
+                        a[pth[0]] = ov["value"]
+                    else:
+                        set_path(a, pth, ov["value"])
                 break
     out = []
     for s in range(steps):
         for g in PHYSICAL:
             for m in d.get(g) or []:
-                if m["enabled"] and m.get("func", "verif_probes.record") == "verif_probes.record":
+                if m["enabled"] and m.get("func", RECORD) in PROBES:
                     a = m.get("arguments") or {}
-                    out.append([s, m["name"], {k: a[k] for k in sorted(a)}])
+                    out.append([s, m["name"], copy.deepcopy({k: a[k] for k in sorted(a)})])
+                    if m.get("func") == GROW:
+                        grow_args(a)
     return out
 
 
 def runs_of(case):
     if case["mode"] != "observation":
         return [[]]
+    if case.get("omode", "sequential") == "product":
+        # ProductMode: itertools.product over the parameters (last one varies fastest), every key set in every run
+        runs = []
+        for combo in itertools.product(*[q["values"] for q in case["params"]]):
+            runs.append([dict(group=q["group"], model=q["model"], path=path_of(q), value=v)
+                         for q, v in zip(case["params"], combo)])
+        return runs
+    # SequentialMode: one run per value; the other keys are set to their current value (no change)
     runs = []
     for q in case["params"]:
         for v in q["values"]:
-            runs.append([dict(group=q["group"], model=q["model"], key=q["key"], value=v)])
+            runs.append([dict(group=q["group"], model=q["model"], path=path_of(q), value=v)])
     return runs
 
 
@@ -251,7 +781,18 @@ def mirror_nodes(case):
     return out
 
 
-def mirror_violates(case, obs) -> bool:
+def frozen(case):
+    c = copy.deepcopy(case)
+    for _, ms in c["spec"]:
+        for m in ms or []:
+            if m.get("func") == GROW:
+                m["func"] = RECORD
+    return c
+
+
+def mirror_violates(case, obs, nodes_exact=True) -> bool:
+    if case.get("kind") == "hist":
+        return mirror_violates_hist(case, obs)
     if any(k not in PHYSICAL for k, _ in case["spec"]):
         return False
     if obs.get("error"):
@@ -260,6 +801,10 @@ def mirror_violates(case, obs) -> bool:
         return True
     if not obs.get("det_ok", True):
         return True
+    return all(_mirror_violates_1(c, obs, nodes_exact) for c in (case, frozen(case)))
+
+
+def _mirror_violates_1(case, obs, nodes_exact):
     exp = mirror_trace(case["spec"], case["steps"]) if case["mode"] == "calibration" else mirror_expected(case)
     if case["mode"] == "calibration":
         t = obs["trace"]
@@ -267,14 +812,76 @@ def mirror_violates(case, obs) -> bool:
             return bool(t)
         return not (len(t) >= len(exp) and len(t) % len(exp) == 0
                     and all(t[i:i + len(exp)] == exp for i in range(0, len(t), len(exp))))
+    if case["mode"] == "observation" and case.get("dask"):
+        per = [mirror_trace(case["spec"], case["steps"], ovs) for ovs in runs_of(case)]
+        t = obs["trace"]
+        n = len(per[0]) if per else 0
+        if n == 0:
+            return bool(t)
+        blocks = [t[i:i + n] for i in range(0, len(t), n)]
+        return not (all(b in per for b in blocks) and all(e in blocks for e in per))
     if obs["trace"] != exp:
         return True
     if case["mode"] == "exposure" and case.get("debug"):
-        return obs.get("nodes") != mirror_nodes(case)
+        want = mirror_nodes(case)
+        if nodes_exact:
+            return obs.get("nodes") != want
+        return any(n not in (obs.get("nodes") or []) for n in want)
     return False
 
 
+def mirror_violates_hist(case, obs) -> bool:
+    runs = obs.get("runs")
+    if runs is None:
+        return True
+    for inplace in (True, False):
+        pcs = hist_run_cases(case, inplace=inplace)
+        if len(pcs) != len(runs):
+            return True
+        bad = False
+        first_debug = True
+        for pc, o in zip(pcs, runs):
+            if o.get("error") or "trace" not in o or not o.get("det_ok", True):
+                bad = True
+                break
+            if _mirror_violates_1(pc, o, nodes_exact=first_debug):
+                bad = True
+                break
+            if pc["mode"] == "exposure" and pc.get("debug") and o.get("nodes"):
+                first_debug = False
+        if not bad:
+            return False
+    return True
+
+
+def first_bad_run(case, obs):
+    """(index, pseudo case, observed run) of the first run of a history that breaks the specification."""
+    runs = obs.get("runs") or []
+    pcs = hist_run_cases(case, inplace=True)
+    pcs_f = hist_run_cases(case, inplace=False)
+    first_debug = True
+    for k, (pc, o) in enumerate(zip(pcs, runs)):
+        if o.get("error") or "trace" not in o or not o.get("det_ok", True):
+            return k, pc, o
+        if _mirror_violates_1(pc, o, first_debug) and (k >= len(pcs_f) or _mirror_violates_1(pcs_f[k], o, first_debug)):
+            return k, pc, o
+        if pc["mode"] == "exposure" and pc.get("debug") and o.get("nodes"):
+            first_debug = False
+    return None
+
+
 def classify(case, obs):
+    if case.get("kind") == "hist":
+        if obs.get("error") and not obs.get("runs"):
+            return "raises", dict(error=obs.get("error"), stage=obs.get("stage"), expected_calls="?")
+        fb = first_bad_run(case, obs)
+        if fb is None:
+            return "history_unclassified", {}
+        k, pc, o = fb
+        clause, extra = classify(pc, o)
+        before = sorted({op["op"] + (":" + op["mode"] if op["op"] == "run" else "")
+                         for op in ops_before_run(case, k)})
+        return clause, dict(extra, after=before)
     if obs.get("error") or "trace" not in obs:
         n_exp = len(mirror_trace(case["spec"], case["steps"]))
         return "raises", dict(error=obs.get("error"), expected_calls="0" if n_exp == 0 else ">0")
@@ -284,6 +891,8 @@ def classify(case, obs):
     t = obs["trace"]
     if exp is None:
         return "calibration_subtrace", {}
+    if case["mode"] == "observation" and case.get("dask"):
+        return "dask_runs", {}
     key = lambda e: json.dumps(e, sort_keys=True)  # noqa: E731
     if t == exp:
         return "debug_capture", {}
@@ -318,31 +927,51 @@ def classify(case, obs):
     return "unclassified", {}
 
 
+def ops_before_run(case, k):
+    """the operations of a history before its k-th run"""
+    out, n = [], 0
+    for op in case["ops"]:
+        if op["op"] == "run":
+            if n == k:
+                return out
+            n += 1
+        out.append(op)
+    return out
+
+
 # ------------------------------------------------------------------------------------------ Coq emission
 
 
-def cval(v) -> str:
+def cval(v, observed=False) -> str:
     if isinstance(v, bool):
         return f"VBool {core.cbool(v)}"
     if isinstance(v, int):
         return f"VInt {core.cz(v)}"
-    if isinstance(v, str):
+    if isinstance(v, str) and (not observed or all(32 <= ord(ch) < 127 for ch in v)):
         return f"VStr {core.cstr(v)}"
     if v is None:
         return "VNone"
     if isinstance(v, (list, tuple)):
-        return "VList " + (core.clist(f"({cval(x)})" for x in v) if v else "nil")
+        return "VList " + (core.clist(f"({cval(x, observed)})" for x in v) if v else "nil")
+    if isinstance(v, dict) and all(isinstance(k, str) for k in v):
+        return "VDict " + (core.clist(f"(VList [VStr {core.cstr(k)}; {cval(v[k], observed)}])" for k in sorted(v))
+                           if v else "nil")
+    if observed:
+        # something the generator never configures (a float, a repr of an object): it can only differ from the
+        # configured value; emitted as a marked value so that Coq reports the case instead of the harness failing
+        txt = "".join(ch if 32 <= ord(ch) < 127 else "?" for ch in repr(v))[:80]
+        return f"VList [VStr {core.cstr('<outside the modelled domain>')}; VStr {core.cstr(type(v).__name__ + ' ' + txt)}]"
     raise ValueError(f"value outside the modelled domain: {v!r}")
 
 
-def ckwargs(d) -> str:
+def ckwargs(d, observed=False) -> str:
     d = d or {}
-    return core.clist(f"({core.cstr(k)}, {cval(d[k])})" for k in sorted(d))
+    return core.clist(f"({core.cstr(str(k))}, {cval(d[k], observed)})" for k in sorted(d, key=str))
 
 
 def cmodel(m) -> str:
     return (f"{{| name := {core.cstr(m['name'])}; enabled := {core.cbool(bool(m['enabled']))}; "
-            f"args := {ckwargs(m.get('arguments'))} |}}")
+            f"grows := {core.cbool(m.get('func') == GROW)}; args := {ckwargs(m.get('arguments'))} |}}")
 
 
 def cdoc(spec) -> str:
@@ -352,10 +981,20 @@ def cdoc(spec) -> str:
             v = "None"
         else:
             # the writer model of the calibration cases is not a probe: it is outside the compared trace
-            ms = [m for m in ms if m.get("func", "verif_probes.record") == "verif_probes.record"]
+            ms = [m for m in ms if m.get("func", RECORD) in PROBES]
             v = "(Some " + core.clist(cmodel(m) for m in ms) + ")"
         items.append(f"({core.cstr(k)}, {v})")
     return core.clist(items)
+
+
+def cpath(path) -> str:
+    return core.clist((f"PIdx {core.cnat(e)}" if isinstance(e, int) else f"PKey {core.cstr(e)}") for e in path)
+
+
+def coverride(o) -> str:
+    pth = path_of(o)
+    return (f"{{| o_group := {GROUP_CTOR[o['group']]}; o_model := {core.cstr(o['model'])}; "
+            f"o_key := {core.cstr(pth[0])}; o_path := {cpath(pth[1:])}; o_value := {cval(o['value'])} |}}")
 
 
 def cmode(case) -> str:
@@ -363,23 +1002,21 @@ def cmode(case) -> str:
         return f"(Exposure {core.cbool(bool(case.get('debug')))})"
     if case["mode"] == "calibration":
         return "Calibration"
-    runs = []
-    for ovs in runs_of(case):
-        runs.append(core.clist(
-            f"{{| o_group := {GROUP_CTOR[o['group']]}; o_model := {core.cstr(o['model'])}; "
-            f"o_key := {core.cstr(o['key'])}; o_value := {cval(o['value'])} |}}" for o in ovs))
-    return "(Observation " + core.clist(runs) + ")"
+    ctor = "ObservationDask" if case.get("dask") else "Observation"
+    return f"({ctor} " + core.clist(core.clist(coverride(o) for o in ovs) for ovs in runs_of(case)) + ")"
 
 
 GROUP_CTOR = dict(zip(PHYSICAL, ["SceneGeneration", "PhotonCollection", "Phasing", "ChargeGeneration",
                                  "ChargeCollection", "ChargeTransfer", "ChargeMeasurement", "SignalTransfer",
                                  "ReadoutElectronics", "DataProcessing"]))
+DET_CTOR = dict(ccd="DetCCD", cmos="DetCMOS", mkid="DetMKID", apd="DetAPD")
+COPY_CTOR = dict(deep="CDeep", processor="CProcessor", pickle="CPickle")
 
 
 def coutcome(obs) -> str:
     if obs.get("error") or "trace" not in obs:
         return f"(Failed {core.cstr(str(obs.get('error') or 'Other'))})"
-    tr = core.clist(f"({core.cnat(s)}, {core.cstr(n)}, {ckwargs(kw)})" for s, n, kw in obs["trace"])
+    tr = core.clist(f"({core.cnat(s)}, {core.cstr(n)}, {ckwargs(kw, observed=True)})" for s, n, kw in obs["trace"])
     if obs.get("nodes") is None:
         nodes = "None"
     else:
@@ -392,11 +1029,43 @@ def emit_case(case, obs) -> str:
             f"     k_observed := {coutcome(obs)} |}}")
 
 
+def cop(op) -> str:
+    o = core.cnat(op["obj"])
+    k = op["op"]
+    if k == "run":
+        return f"ORun {o} {cmode(op)} {core.cnat(op['steps'])}"
+    if k == "enable":
+        return f"OSetEnabled {o} {GROUP_CTOR[op['group']]} {core.cnat(op['index'])} {core.cbool(bool(op['value']))}"
+    if k == "setarg":
+        return f"OSetArg {o} {coverride(op)}"
+    if k == "models":
+        return f"OSetModels {o} {GROUP_CTOR[op['group']]} {core.clist(core.cnat(j) for j in op['sel'])}"
+    if k == "insert":
+        return f"OInsert {o} {GROUP_CTOR[op['group']]} {core.cnat(op['index'])} {cmodel(op['model'])}"
+    if k == "copy":
+        return f"OCopy {o} {COPY_CTOR[op['how']]}"
+    raise ValueError(k)
+
+
+def emit_hist_case(case, obs) -> str:
+    ops = core.clist(cop(op) for op in case["ops"])
+    outs = core.clist(coutcome(o) for o in obs.get("runs", []))
+    return (f"{{| h_det := {DET_CTOR[case.get('det', 'ccd')]}; h_doc := {cdoc(case['spec'])};\n     h_ops := {ops};\n"
+            f"     h_observed := {outs} |}}")
+
+
+HEADER = ("From Coq Require Import ZArith List String.\nFrom PyxelV Require Import Model.Pipeline Model.PipelineHist.\n"
+          "From PyxelGen Require Import Gen_C01.\nImport ListNotations.\nOpen Scope list_scope.\n")
+
+
 def emit_file(pairs) -> str:
+    if pairs and pairs[0][0].get("kind") == "hist":
+        body = ";\n  ".join(emit_hist_case(c, o) for c, o in pairs)
+        return (HEADER + f"Definition cases : list hist_case := [\n  {body}\n].\n"
+                "Eval vm_compute in hmismatches src_model_groups cases.\n"
+                "Eval vm_compute in hviolations cases.\n")
     body = ";\n  ".join(emit_case(c, o) for c, o in pairs)
-    return ("From Coq Require Import ZArith List String.\nFrom PyxelV Require Import Model.Pipeline.\n"
-            "From PyxelGen Require Import Gen_C01.\nImport ListNotations.\nOpen Scope list_scope.\n"
-            f"Definition cases : list c01_case := [\n  {body}\n].\n"
+    return (HEADER + f"Definition cases : list c01_case := [\n  {body}\n].\n"
             "Eval vm_compute in mismatches src_model_groups cases.\n"
             "Eval vm_compute in violations cases.\n")
 
@@ -405,12 +1074,22 @@ def emit_file(pairs) -> str:
 
 
 def case_key(c):
-    return json.dumps({k: c.get(k) for k in ("spec", "steps", "mode", "params")}, sort_keys=True)
+    return json.dumps({k: c.get(k) for k in ("spec", "steps", "mode", "params", "omode", "dask", "nd", "det", "ops")},
+                      sort_keys=True)
 
 
 def nontrivial(c) -> bool:
     pop = [ms for _, ms in c["spec"] if ms]
+    if c.get("kind") == "hist":
+        kinds = {op["op"] for op in c["ops"]}
+        return sum(op["op"] == "run" for op in c["ops"]) >= 2 and len(kinds) >= 2
     return len(pop) >= 2 or any(not m["enabled"] for ms in pop for m in ms)
+
+
+def det_bad(c, o) -> bool:
+    if c.get("kind") == "hist":
+        return any("trace" in x and not x.get("det_ok", True) for x in o.get("runs", []))
+    return "trace" in o and not o.get("det_ok", True)
 
 
 def correspondence(ctx: Ctx, cases, tag="c", per=40):
@@ -419,39 +1098,62 @@ def correspondence(ctx: Ctx, cases, tag="c", per=40):
     obs = core.run_driver(ctx, "c01", cases, workers=8)
     ctx.log(f"implementation ran {len(cases)} cases in {time.time() - t0:.1f}s")
     t0 = time.time()
-    pairs = []
+    single, hist = [], []
     for c, o in zip(cases, obs):
         if "crash" in o or "driver_error" in o:
             ctx.broken.append(Broken("correspondence", "implementation driver failed", str(o)[:600], c))
             continue
-        pairs.append((c, o))
-    files = {}
-    for k in range(0, len(pairs), per):
-        files[f"{tag}_{k // per:03d}"] = emit_file(pairs[k:k + per])
+        (hist if c.get("kind") == "hist" else single).append((c, o))
+    files, chunks = {}, {}
+    for prefix, pairs, size in ((tag, single, per), (tag + "h", hist, max(10, per // 2))):
+        for k in range(0, len(pairs), size):
+            name = f"{prefix}_{k // size:03d}"
+            files[name] = emit_file(pairs[k:k + size])
+            chunks[name] = pairs[k:k + size]
     res = core.coq_eval_many(ctx, files, timeout=600, par=8)
     ctx.log(f"Coq evaluated {len(files)} case files in {time.time() - t0:.1f}s")
     mism, viol = [], []
-    for k, name in enumerate(sorted(files)):
+    for name in sorted(files):
         ok, evals, se = res[name]
-        chunk = pairs[k * per:(k + 1) * per]
+        chunk = chunks[name]
         if not ok or len(evals) != 2:
             ctx.broken.append(Broken("correspondence", f"case file {name}.v did not evaluate", core.tail(se, 15)))
             continue
         mism += [chunk[i] for i in core.parse_int_list(evals[0])]
         viol += [chunk[i] for i in core.parse_int_list(evals[1])]
+    pairs = single + hist
     # the identity of the detector handed to the models is outside the Coq model: judged here
     for c, o in pairs:
-        if "trace" in o and not o.get("det_ok", True) and not any(c is v[0] for v in viol):
+        if det_bad(c, o) and not any(c is v[0] for v in viol):
             viol.append((c, o))
     for c, o in pairs:
         ctx.count("evaluations")
-        ctx.count("model_calls_compared", len(o.get("trace", [])))
-        ctx.dist("mode", c["mode"] + ("/debug" if c.get("debug") else ""))
+        ctx.dist("detector", c.get("det", "ccd"))
         ctx.dist("variant", c["variant"])
-        ctx.dist("steps", c["steps"])
         ctx.dist("populated_groups", sum(1 for _, ms in c["spec"] if ms))
         ctx.dist("models", min(sum(len(ms or []) for _, ms in c["spec"]), 20))
-        ctx.dist("outcome", o.get("error") or "ran")
+        grow = any(m.get("func") == GROW for _, ms in c["spec"] for m in ms or [])
+        cont = any(isinstance(v, dict) for _, ms in c["spec"] for m in ms or [] for v in (m.get("arguments") or {}).values())
+        ctx.dist("arguments", ("growing " if grow else "") + ("dict-valued" if cont else "flat"))
+        if c.get("kind") == "hist":
+            ctx.count("histories")
+            runs = o.get("runs", [])
+            ctx.count("history_runs", len(runs))
+            ctx.count("model_calls_compared", sum(len(x.get("trace", [])) for x in runs))
+            ctx.dist("history_ops", len(c["ops"]))
+            for op in c["ops"]:
+                ctx.dist("op", op["op"] + (":" + op["mode"] + ("/debug" if op.get("debug") else "")
+                                           + ("/dask" if op.get("dask") else "") if op["op"] == "run"
+                                           else ":" + op["how"] if op["op"] == "copy" else
+                                           ":nested" if op["op"] == "setarg" and len(path_of(op)) > 1 else ""))
+            ctx.dist("outcome", "ran" if all(not x.get("error") for x in runs) else "error")
+        else:
+            ctx.count("model_calls_compared", len(o.get("trace", [])))
+            ctx.dist("mode", c["mode"] + ("/debug" if c.get("debug") else "") +
+                     ("/" + c.get("omode", "sequential") + ("/dask" if c.get("dask") else "")
+                      if c["mode"] == "observation" else ""))
+            ctx.dist("steps", c["steps"])
+            ctx.dist("outcome", o.get("error") or "ran")
     return mism, viol, pairs
 
 
@@ -462,20 +1164,45 @@ def coq_violates(ctx: Ctx, case, obs) -> bool | None:
     return core.parse_int_list(evals[1]) != []
 
 
-def shrink(ctx: Ctx, case, obs):
-    """Greedy one-element removals while the (Python mirror of the) specification is still violated;
-    the result is confirmed inside Coq, else the original case is kept."""
-    if not mirror_violates(case, obs):
-        return case, obs
-    target = classify(case, obs)   # a smaller case must fail in the SAME way (no slipping into another defect)
-    cur, cur_obs = copy.deepcopy(case), obs
-    for _ in range(14):
-        cands = []
-        spec = cur["spec"]
-        for i in range(len(spec)):
+def shrink_candidates(cur):
+    cands = []
+    spec = cur["spec"]
+    if cur.get("kind") == "hist":
+        for i in range(len(cur["ops"])):
             c = copy.deepcopy(cur)
-            del c["spec"][i]
+            del c["ops"][i]
             cands.append(c)
+        for i, op in enumerate(cur["ops"]):
+            if op["op"] == "run" and op["steps"] > 1:
+                c = copy.deepcopy(cur)
+                c["ops"][i]["steps"] -= 1
+                cands.append(c)
+            if op["op"] == "run" and op["mode"] == "observation":
+                for j, q in enumerate(op["params"]):
+                    if len(op["params"]) > 1:
+                        c = copy.deepcopy(cur)
+                        del c["ops"][i]["params"][j]
+                        cands.append(c)
+                    if len(q["values"]) > 1:
+                        c = copy.deepcopy(cur)
+                        c["ops"][i]["params"][j]["values"] = q["values"][:1]
+                        cands.append(c)
+    for i in range(len(spec)):
+        c = copy.deepcopy(cur)
+        del c["spec"][i]
+        cands.append(c)
+    if cur.get("kind") == "hist":
+        # dropping a model keeps a history valid only if no operation addresses the group by position
+        positional = {op["group"] for op in cur["ops"] if op["op"] in ("enable", "models", "insert")}
+        for i, (k, ms) in enumerate(spec):
+            if k in positional:
+                continue
+            for j in range(len(ms or [])):
+                if len(ms) > 1:
+                    c = copy.deepcopy(cur)
+                    del c["spec"][i][1][j]
+                    cands.append(c)
+    if cur.get("kind") != "hist":
         for i, (k, ms) in enumerate(spec):
             for j in range(len(ms or [])):
                 c = copy.deepcopy(cur)
@@ -501,14 +1228,29 @@ def shrink(ctx: Ctx, case, obs):
                     c = copy.deepcopy(cur)
                     c["params"][i]["values"] = q["values"][:1]
                     cands.append(c)
-        # observation targets must survive
-        good = []
-        for c in cands:
-            if c["mode"] == "observation":
-                tg = set(int_targets(c["spec"]))
-                if not all((q["group"], q["model"], q["key"]) in tg for q in c["params"]):
-                    continue
+    good = []
+    for c in cands:
+        if c.get("kind") == "hist":
+            if hist_valid(c):
+                good.append(c)
+        elif c["mode"] == "observation":
+            mir = Mirror(c["spec"])
+            if mir.valid(dict(op="run", obj=0, mode="observation", params=c["params"], omode=c.get("omode", "sequential"))):
+                good.append(c)
+        else:
             good.append(c)
+    return good
+
+
+def shrink(ctx: Ctx, case, obs):
+    """Greedy one-element removals while the (Python mirror of the) specification is still violated;
+    the result is confirmed inside Coq, else the original case is kept."""
+    if not mirror_violates(case, obs):
+        return case, obs
+    target = classify(case, obs)[0]   # a smaller case must fail in the SAME way (no slipping into another defect)
+    cur, cur_obs = copy.deepcopy(case), obs
+    for _ in range(16):
+        good = shrink_candidates(cur)
         if not good:
             break
         res = core.run_driver(ctx, "c01", good, workers=1)   # one process: the import costs more than the runs
@@ -516,32 +1258,69 @@ def shrink(ctx: Ctx, case, obs):
         for c, o in zip(good, res):
             if "crash" in o or "driver_error" in o:
                 continue
-            if mirror_violates(c, o) and classify(c, o) == target:
+            if mirror_violates(c, o) and classify(c, o)[0] == target:
                 nxt = (c, o)
                 break
         if nxt is None:
             break
         cur, cur_obs = nxt
     if cur is not case:
-        v = coq_violates(ctx, cur, cur_obs) if cur_obs.get("det_ok", True) else True
+        v = coq_violates(ctx, cur, cur_obs) if not det_bad(cur, cur_obs) else True
         if not v:
             return case, obs
     return cur, cur_obs
 
 
+def expected_of(case):
+    if case.get("kind") == "hist":
+        return dict(runs=[expected_of(pc) for pc in hist_run_cases(case)],
+                    note="per run: the calls of the configuration its object has when the run starts")
+    if case["mode"] == "calibration":
+        return None
+    exp = dict(trace=mirror_expected(case))
+    if case["mode"] == "exposure" and case.get("debug"):
+        exp["nodes"] = mirror_nodes(case)
+    return exp
+
+
 def to_violation(ctx: Ctx, case, obs) -> Violation:
     case, obs = shrink(ctx, case, obs)
     clause, extra = classify(case, obs)
-    sig = dict(clause=clause, mode=case["mode"], debug=bool(case.get("debug")), variant=case["variant"], **extra)
-    exp = None
-    if case["mode"] != "calibration":
-        exp = dict(trace=mirror_expected(case))
-        if case["mode"] == "exposure" and case.get("debug"):
-            exp["nodes"] = mirror_nodes(case)
-    groups = [k for k, ms in case["spec"]]
-    what = (f"{case['mode']} ({case['variant']}, debug={bool(case.get('debug'))}, {case['steps']} step(s)) over groups "
-            f"{groups}: {clause} {extra if extra else ''}")
-    return Violation(clause=clause, case=case, observed=obs, expected=exp, what=what, sig=sig)
+    if case.get("kind") == "hist":
+        fb = first_bad_run(case, obs)
+        pc = fb[1] if fb else dict(mode="exposure", debug=False)
+        sig = dict(clause=clause, mode=pc["mode"], debug=bool(pc.get("debug")), variant=case["variant"],
+                   history=True, **extra)
+        what = (f"history on {case.get('det', 'ccd')} ({case['variant']}): "
+                + " ; ".join(describe_op(op) for op in case["ops"])
+                + f" -> run #{fb[0] if fb else '?'}: {clause} {extra if extra else ''}")
+    else:
+        sig = dict(clause=clause, mode=case["mode"], debug=bool(case.get("debug")), variant=case["variant"], **extra)
+        if case.get("det", "ccd") != "ccd":
+            sig["det"] = case["det"]
+        groups = [k for k, ms in case["spec"]]
+        what = (f"{case['mode']} ({case['variant']}, {case.get('det', 'ccd')}, debug={bool(case.get('debug'))}, "
+                f"{case['steps']} step(s)) over groups {groups}: {clause} {extra if extra else ''}")
+    return Violation(clause=clause, case=case, observed=obs, expected=expected_of(case), what=what, sig=sig)
+
+
+def describe_op(op) -> str:
+    k = op["op"]
+    if k == "run":
+        extra = ""
+        if op["mode"] == "observation":
+            extra = " " + op.get("omode", "sequential") + " " + ",".join(
+                f"{q['model']}.{'.'.join(map(str, path_of(q)))}={q['values']}" for q in op["params"])
+        return f"run#{op['obj']} {op['mode']}{'/debug' if op.get('debug') else ''} x{op['steps']}{extra}"
+    if k == "enable":
+        return f"#{op['obj']}.{op['group']}[{op['index']}].enabled={op['value']}"
+    if k == "setarg":
+        return f"#{op['obj']}.{op['group']}.{op['model']}.{'.'.join(map(str, path_of(op)))}={op['value']}"
+    if k == "models":
+        return f"#{op['obj']}.{op['group']}.models=old{op['sel']}"
+    if k == "insert":
+        return f"#{op['obj']}.{op['group']}.insert({op['index']}, {op['model']['name']})"
+    return f"copy#{op['obj']}({op['how']})"
 
 
 def new_violations(ctx: Ctx):
@@ -552,14 +1331,44 @@ def new_violations(ctx: Ctx):
 def add_violations(ctx: Ctx, viol, cap=6):
     """One (shrunk) violation per distinct first classification; shrinking costs driver runs."""
     seen = {}
-    size = lambda c: (len(c["spec"]) + sum(len(ms or []) for _, ms in c["spec"]), c["steps"])  # noqa: E731
+
+    def size(c):
+        return (len(c.get("ops", [])), len(c["spec"]) + sum(len(ms or []) for _, ms in c["spec"]), c.get("steps", 0))
+
     for c, o in sorted(viol, key=lambda co: size(co[0])):      # start the shrinking from the smallest case
-        k = (classify(c, o)[0], c["mode"], bool(c.get("debug")), c["variant"])
+        clause, extra = classify(c, o)
+        k = (clause, extra.get("error"), c.get("kind", "single"), c.get("mode"), bool(c.get("debug")), c["variant"])
         seen.setdefault(k, (c, o))
-    for k in list(seen)[:cap]:
+    # different ways of failing first (clause, error class), then their variants
+    order, rest, kinds = [], [], set()
+    for k in seen:
+        (order if k[:2] not in kinds else rest).append(k)
+        kinds.add(k[:2])
+    for k in (order + rest)[:cap]:
         c, o = seen[k]
         ctx.violations.append(to_violation(ctx, c, o))
     ctx.cov["violating_cases"] = ctx.cov.get("violating_cases", 0) + len(viol)
+
+
+def corpus_cases():
+    """Minimised past failures (repaired defects, classes of seeded changes): run first."""
+    out = []
+    d = core.VERIF / "harness" / "corpus" / "C01"
+    for f in sorted(d.glob("*.json")):
+        data = json.loads(f.read_text())
+        for c in (data if isinstance(data, list) else [data]):
+            c = dict(c)
+            c["corpus"] = f.stem
+            out.append(c)
+    return out
+
+
+PICKLE_OK = True    # a pickled pipeline runs since the repair of C01-pickled-group-run (ModelGroup.__setstate__)
+
+
+def hist_cases(ctx: Ctx, n: int, salt="hist"):
+    r = ctx.rng(salt)
+    return [gen_hist(r, quick=ctx.quick, pickle_ok=PICKLE_OK) for _ in range(n)]
 
 
 def run(ctx: Ctx):
@@ -567,10 +1376,14 @@ def run(ctx: Ctx):
 
     ctx.trusted += TRUSTED
     ctx.assumptions += [
-        "model functions are the recording probe (any group, CCD detector); argument values are ints, strings, "
-        "bools, None and nested lists (no floats, no dict values)",
+        "model functions are the recording probe and the growing probe (records, then appends to its list arguments in "
+        "place), in any group, on CCD / CMOS / MKID / APD detectors; argument values are ints, strings, bools, None, "
+        "nested lists and string-keyed dicts (no floats)",
         "YAML mappings have unique keys (NoDup hypothesis of C01_yaml_key_order_irrelevant)",
-        "observation: sequential mode, with_dask False, integer-valued targets of uniquely named models",
+        "observation: without dask; sequential mode over integer-valued top-level arguments, product mode over any "
+        "existing setting including keys inside dict / list valued arguments; targets are uniquely named enabled models",
+        "histories: every operation names an existing object / group / position / path (an operation the code refuses "
+        "is outside the modelled domain); group.models is only ever given a list without repeated objects",
         "calibration (thorough tier): the fitted parameter is a detector characteristic, so every evaluation must "
         "reproduce the configured arguments; how many evaluations happen is pygmo's choice",
     ]
@@ -583,30 +1396,47 @@ def run(ctx: Ctx):
         gen["Gen_C01.v"] = tr.FALLBACK
     core.proof_leg(ctx, gen, PROP_FILE)
 
-    cases = fixed_cases()
-    cases += gen_cases(ctx, ctx.budget(110, 700))
+    cases = corpus_cases()
+    ctx.cov["corpus_cases"] = len(cases)
+    cases += fixed_cases() + fixed_hist_cases(pickle_ok=PICKLE_OK, thorough=not ctx.quick)
+    cases += gen_cases(ctx, ctx.budget(90, 600))
+    cases += hist_cases(ctx, ctx.budget(130, 900))
     cases += pair_cases(full=not ctx.quick)
     cases += malformed_cases(ctx)
     if not ctx.quick:
-        cases += calibration_cases(ctx, 6)
+        cases += calibration_cases(ctx, 8)
+        enum = enum_hist_cases(3)
+        ctx.cov["exhaustive_histories"] = (f"{len(enum)} histories: every sequence of <= 3 operations from "
+                                           "{run, reverse models, copy, set nested argument, flip each of 3 switches, "
+                                           "run copy, flip on copy} on a 2-group / 3-model pipeline, then a run of every object")
+        cases += enum
     mism, viol, pairs = correspondence(ctx, cases)
 
     keys = {case_key(c) for c, _ in pairs if nontrivial(c)}
     ctx.cov["distinct_nontrivial"] = len(keys)
-    ctx.cov["rule"] = ("one case = (pipeline document, steps, mode, construction variant); distinct = distinct (document, "
-                       "steps, mode, parameters); non-trivial = at least two populated groups or at least one disabled model")
+    ctx.cov["rule"] = ("one case = (detector type, pipeline document, construction variant) + either one run (steps, mode, "
+                       "parameters) or a history of operations; distinct = distinct (detector, document, steps, mode, "
+                       "parameters, operations); non-trivial = a single run over at least two populated groups or with a "
+                       "disabled model, or a history with at least two runs and a configuration operation between / before them")
     ctx.cov["traces_validated_against_impl"] = len(pairs)
     ctx.cov["disagreements_checked"] = len(mism)
-    ctx.cov["pair_sweep"] = "all 45 group pairs x 4 enabled patterns" + ("" if ctx.quick else " x yaml/python x debug on/off")
-    for c, o in pairs[:2] + pairs[-8:-6]:
-        ctx.sample(dict(case={k: c.get(k) for k in ("steps", "variant", "mode", "debug")},
+    ctx.cov["pair_sweep"] = ("all 45 group pairs x 4 enabled patterns, detector type rotating"
+                             + ("" if ctx.quick else " x yaml/python x debug on/off"))
+    singles = [(c, o) for c, o in pairs if c.get("kind") != "hist"]
+    hists = [(c, o) for c, o in pairs if c.get("kind") == "hist"]
+    for c, o in singles[:2] + singles[-8:-7]:
+        ctx.sample(dict(case={k: c.get(k) for k in ("steps", "variant", "det", "mode", "debug")},
                         groups_in_document_order=[k for k, _ in c["spec"]],
                         trace_head=o.get("trace", [])[:4], n_calls=len(o.get("trace", [])), error=o.get("error")))
+    for c, o in hists[:1] + hists[-3:-1]:
+        ctx.sample(dict(history=[describe_op(op) for op in c["ops"]], det=c.get("det"), variant=c["variant"],
+                        calls_per_run=[len(x.get("trace", [])) for x in o.get("runs", [])]))
     add_violations(ctx, viol)
     (ctx.build / "mismatches.json").write_text(json.dumps([dict(case=c, observed=o) for c, o in mism][:50], indent=1))
     for c, o in mism[:20]:
         ctx.broken.append(Broken("correspondence", "Model/Pipeline.v vs implementation",
-                                 f"model and implementation differ ({c['mode']}, {c['variant']}, debug={c.get('debug')})",
+                                 f"model and implementation differ ({c.get('kind', c.get('mode'))}, {c['variant']}, "
+                                 f"{c.get('det', 'ccd')}, debug={c.get('debug')})",
                                  dict(case=c, observed=o)))
     if ctx.broken and not new_violations(ctx):
         search(ctx)
@@ -614,14 +1444,16 @@ def run(ctx: Ctx):
 
 def search(ctx: Ctx):
     """A proof obligation or the correspondence broke: look harder for a concrete failing input."""
-    ctx.log("searching for a concrete failing input (full pair sweep, dense pipelines, bigger budget)")
-    cases = pair_cases(full=True) + gen_cases(ctx, 250, salt="search")
+    ctx.log("searching for a concrete failing input (full pair sweep, dense pipelines, histories, bigger budget)")
+    cases = pair_cases(full=True) + gen_cases(ctx, 200, salt="search") + hist_cases(ctx, 300, salt="search-hist")
     r = ctx.rng("search-dense")
     for _ in range(40):
         spec = gen_spec(r, dense=True)
+        det = r.choice(DETS)
         for variant in ("yaml", "python"):
             for debug in (False, True):
-                cases.append(dict(spec=spec, steps=r.choice([2, 3, 4]), variant=variant, mode="exposure", debug=debug))
+                cases.append(dict(spec=spec, steps=r.choice([2, 3, 4]), variant=variant, det=det, mode="exposure",
+                                  debug=debug))
     mism, viol, pairs = correspondence(ctx, cases, tag="s")
     add_violations(ctx, viol)
     ctx.cov["search_cases"] = len(pairs)
@@ -650,9 +1482,10 @@ def replay(ctx: Ctx, rp: dict) -> int:
     core.ensure_lib(ctx, targets=core.lib_targets_of([emit_file([])]))
     core.coqc(ctx, gen / "Gen_C01.v", [(gen, "PyxelGen")])
     v = coq_violates(ctx, case, obs)
-    bad = bool(v) or v is None or not obs.get("det_ok", True)
-    if case["mode"] != "calibration":
-        print("specification expects:", json.dumps(mirror_expected(case)))
+    bad = bool(v) or v is None or det_bad(case, obs)
+    exp = expected_of(case)
+    if exp is not None:
+        print("specification expects:", json.dumps(exp))
     print("specification (evaluated in Coq):", "VIOLATED" if bad else "holds")
     return 1 if bad else 0
 
@@ -664,20 +1497,37 @@ META = dict(
         "loader: the trace is strictly sorted by (step, rank in the physical order written from the property text, "
         "position in the user's list); every enabled position executes exactly once per step and disabled models / "
         "absent groups never (position-based, so duplicate names are covered); every call carries exactly the configured "
-        "arguments; permuting the YAML keys gives the same pipeline; YAML = Python construction; debug capture does not "
-        "change the trace. The physical literal is proved equal to MODEL_GROUPS regenerated from the source on every run, "
-        "together with the constructor keyword -> attribute -> property wiring and what run_pipeline iterates. That the "
-        "Python code behaves as the model is established by correspondence (testing): generated pipelines built from "
-        "shuffled-key YAML through pyxel.load and from Python objects, run in exposure (debug on/off), sequential "
-        "observation and (thorough) calibration, the recorded calls judged inside Coq against model and specification, "
-        "plus the sweep of all 45 group pairs x 4 enabled patterns."),
+        "arguments (for a model that changes its container arguments in place: including its own earlier changes, and the "
+        "state-passing execution of the object is proved equal to that closed form, C01_execution_is_trace); permuting the "
+        "YAML keys gives the same pipeline; YAML = Python construction; debug capture does not change the trace and every "
+        "exposure completes with debug on or off (C01_debug_runs, full statement since the repair of C01-debug-empty-run). "
+        "Configuration histories (Model/PipelineHist.v: runs in exposure / observation / calibration mode, switches, "
+        "Processor.set on arguments incl. keys inside dict / list values, reordering / dropping / inserting models, deep "
+        "copies and pickle round trips of pipeline objects), by induction over the operation list: every run is a run of "
+        "the configuration its object has AT THAT TIME (C01_history_run, C01_history_each_run), an operation that does "
+        "not write an object leaves it unchanged (frame), a changed switch is honoured by the next run, copies are "
+        "isolated from their source, observation / calibration never change the user's object. The physical literal is "
+        "proved equal to MODEL_GROUPS regenerated from the source on every run, together with the constructor wiring, "
+        "what run_pipeline iterates and that it skips a group only when absent (no detector-dependent branch), what "
+        "ModelGroup.run loops over, and the source side of the two repairs. That the Python code behaves as the model "
+        "is established by correspondence (testing): generated pipelines on all four detector types, built from "
+        "shuffled-key YAML through pyxel.load and from Python objects, run in exposure (debug on/off), observation "
+        "(sequential, product, product under dask) and (thorough) calibration incl. time-domain targets, and generated "
+        "histories of operations on live pipeline objects; the recorded calls are judged inside Coq against model and "
+        "specification; plus the sweep of all 45 group pairs x 4 enabled patterns and (thorough) every history of <= 3 "
+        "operations over a small alphabet."),
     level_note=(
-        "Trusted: Coq kernel + vm_compute; translator/c01.py; the correspondence harness and the recording probe. "
+        "Trusted: Coq kernel + vm_compute; translator/c01.py; the correspondence harness and the two probes. "
         "All theorems are closed under the global context (no axioms). Not carried by the theorems: that "
         "func(detector, **arguments) receives *the* processor's detector (checked by identity on the implementation "
-        "side only), PyYAML, Python keyword binding, xarray DataTree child order, deepcopy in observation mode, "
-        "pygmo's choice of evaluations (only per-evaluation sub-traces are compared), dask observation mode."),
-    technique="Coq proof (induction over groups/steps, StronglySorted, Permutation) + regenerated group-order/wiring tables "
-              "+ in-Coq correspondence/spec evaluation of recorded traces",
+        "side only), PyYAML, Python keyword binding, xarray DataTree child order, that deepcopy / pickle produce "
+        "independent equal values (value semantics of pipeline objects is the specification; the implementation is "
+        "compared against it by the history cases), which runs an observation's parameter mode requests (C05), "
+        "pygmo's choice of evaluations (only per-evaluation sub-traces are compared), dask's task order / repetition "
+        "(every block must be one requested run and every requested run must occur), dask with a threaded or "
+        "distributed scheduler."),
+    technique="Coq proof (induction over groups/steps and over operation lists, StronglySorted, Permutation, frame lemmas) + "
+              "regenerated group-order/wiring/iteration tables + in-Coq correspondence/spec evaluation of recorded traces "
+              "and histories",
     design_ref="DESIGN.md section 6, C01",
 )
